@@ -520,7 +520,7 @@ func (st *Runtime) executeList(list *ListNode) (returnValue reflect.Value) {
 						}
 					}
 					if valVarSlot < 0 {
-						st.context = rangeValue
+						st.context = indirectEface(rangeValue)
 					}
 					returnValue = st.executeList(node.List)
 					indexValue, rangeValue, end = ranger.Range()
